@@ -919,3 +919,41 @@ silent('c14-hoisted-try', 'C14',
 """, """        test_value = test_value[key]
 """), (C, "        path_segments = self.kind.split('.')\n        return self._find_in_dict(creds, path_segments, match)",
        "        path_segments = self.kind.split('.')\n        try:\n            return self._find_in_dict(creds, path_segments, match)\n        except (KeyError, TypeError):\n            return False")])
+
+# ------------------------------------------------------------------ C15
+fire('c15-and-no-parens', 'C15',
+     [(C, "        return '(%s)' % ' and '.join(str(r) for r in self.rules)", "        return '%s' % ' and '.join(str(r) for r in self.rules)")], 'C15')
+fire('c15-or-no-parens', 'C15',
+     [(C, "        return '(%s)' % ' or '.join(str(r) for r in self.rules)", "        return ' or '.join(str(r) for r in self.rules)")], 'C15')
+fire('c15-not-no-space', 'C15',
+     [(C, "        return 'not %s' % self.rule", "        return 'not%s' % self.rule")], 'C15')
+fire('c15-amp-joiner', 'C15',
+     [(C, "        return '(%s)' % ' and '.join(str(r) for r in self.rules)", "        return '(%s)' % ' & '.join(str(r) for r in self.rules)")], 'C15')
+fire('c15-and-prints-or', 'C15',
+     [(C, "        return '(%s)' % ' and '.join(str(r) for r in self.rules)", "        return '(%s)' % ' or '.join(str(r) for r in self.rules)")], 'C15.ROUNDTRIP')
+fire('c15-split-2', 'C15',
+     [(P, "kind, match = rule.split(':', 1)", "kind, match = rule.split(':', 2)")], 'C15.FORMATS')
+fire('c15-leaf-swapped', 'C15',
+     [(C, "        return '{}:{}'.format(self.kind, self.match)", "        return '{}:{}'.format(self.match, self.kind)")], 'C15.FORMATS')
+fire('c15-eq-check-str', 'C15',
+     [(POL, "                str(self.check) == str(other.check) and", "                self.check_str == other.check_str and")], 'C15.EQ')
+fire('c15-eq-name-dropped', 'C15',
+     [(POL, "        if (self.name == other.name and\n                str(self.check)", "        if (True and\n                str(self.check)")], 'C15.EQ')
+fire('c15-dump-true-at', 'C15',
+     [(POL, "            if isinstance(value, _checks.TrueCheck):\n                out_rules[key] = ''", "            if isinstance(value, _checks.TrueCheck):\n                out_rules[key] = '!'")], 'C15.DUMP')
+fire('c15-false-prints-at', 'C15',
+     [(C, "        return '!'", "        return '@'")], 'C15')
+fire('c15-brackets', 'C15',
+     [(C, "        return '(%s)' % ' or '.join(str(r) for r in self.rules)", "        return '[%s]' % ' or '.join(str(r) for r in self.rules)")], 'C15')
+silent('c15-fstring', 'C15',
+       [(C, "        return 'not %s' % self.rule", "        return f'not {self.rule}'")])
+silent('c15-format-call', 'C15',
+       [(C, "        return '(%s)' % ' and '.join(str(r) for r in self.rules)", "        return '({})'.format(' and '.join(str(r) for r in self.rules))")])
+silent('c15-concat', 'C15',
+       [(C, "        return '(%s)' % ' or '.join(str(r) for r in self.rules)", "        return '(' + ' or '.join(str(r) for r in self.rules) + ')'")])
+silent('c15-eq-isinstance-drop', 'C15',
+       [(POL, """                str(self.check) == str(other.check) and
+                (isinstance(self, other.__class__) or
+                 isinstance(other, self.__class__))):""", """                str(self.check) == str(other.check) and
+                (isinstance(self, other.__class__) or
+                 isinstance(other, self.__class__) or False)):""")])
